@@ -836,6 +836,7 @@ class _Boom(Exception):
 DF_EXC = {"AttributeError": AttributeError, "TraitError": TraitError, "KeyError": KeyError, "Boom": _Boom, "none": None}
 DF_FILTERS = ["default", "error", "ignore", "always"]
 DF_KINDS = ["method", "factory", "property-getter", "delegate-default", "expression-method", "list-method", "validated-any-method"]
+DF_ARMED = [False]
 DF_ROUTES = ["getattr", "trait_get", "setattr-reads-old", "hasattr"]
 
 
@@ -872,6 +873,8 @@ def deffault_run(case, ctx):
         inst = E("the default fails")
 
         def boom(*a):
+            if case["route"] == "del-stored" and not DF_ARMED[0]:
+                return V() if kind == "any-method-listened" else []       # (the assignment that stores the value must succeed)
             raise inst
     stored = V() if kind == "any-method-listened" else [V()]
     if kind == "any-method-listened":
@@ -909,8 +912,13 @@ def deffault_run(case, ctx):
                 elif case["route"] == "hasattr":
                     hasattr(o, "x")
                 elif case["route"] == "del-stored":
+                    DF_ARMED[0] = False
                     o.x = stored
-                    del o.x
+                    DF_ARMED[0] = True
+                    try:
+                        del o.x
+                    finally:
+                        DF_ARMED[0] = False
                 else:
                     o.x = 3
             except BaseException as e:
@@ -929,9 +937,12 @@ def deffault_run(case, ctx):
         if e is not None:
             ctx.fail("stale-error/default", "%r left the error indicator set: %r" % (case, e))
     def clean():
-        gc.collect()
+        # (first drop what the re-raised exception instance drags along - its traceback holds the frames, the frames the
+        #  objects - and only then collect the cycles those objects are part of)
         if isinstance(inst, BaseException):
             inst.__traceback__ = None
+            inst.__context__ = None
+        gc.collect()
     watched = stored if kind == "any-method-listened" else stored[0]
     op()
     clean()
